@@ -226,3 +226,123 @@ Proof.
       rewrite Ek. split; [exact J0|exact J1].
     + rewrite H. reflexivity.
 Qed.
+
+(* ---------------------------------------------------------------------------------------- *)
+(* ReleaseReadAndReuse preserves the invariant of the pair (incl. the swap)                  *)
+(* ---------------------------------------------------------------------------------------- *)
+Lemma swap_cond_one l : swap_cond sw_reuse_needs_len0 sw_reuse_needs_one_slice l = true -> length (slices l) = 1.
+Proof.
+  unfold swap_cond. change sw_reuse_needs_one_slice with true. cbv iota. intros H. apply andb_prop in H. destruct H as [_ H].
+  apply Nat.eqb_eq in H. exact H.
+Qed.
+
+Lemma wslice_recyclable m s : wslice_ok m s -> recyclable m s.
+Proof. intros [_ [_ [_ [_ H]]]] E. destruct (H E) as [t [Ht [Hc _]]]. exists t. auto. Qed.
+
+Lemma reuse_inv m hs hi hp hr ks ki kp kr oth0 sp_h idss_h sp_k idss_k :
+  let h := {| h_snd := hs; h_infb := hi; h_pend := hp; h_rcv := hr |} in
+  let k := {| h_snd := ks; h_infb := ki; h_pend := kp; h_rcv := kr |} in
+  Inv (owned k idss_k) (slot_at m) (mk_sys m h oth0) sp_h idss_h ->
+  Inv (owned h idss_h) (slot_at m) (mk_sys m k oth0) sp_k idss_k ->
+  pw sp_k = [] ->
+  let '(m1, l1) := release_reserve m hr in
+  let '(rcv', ksnd') := if swap_cond sw_reuse_needs_len0 sw_reuse_needs_one_slice l1 then (ks, l1) else (l1, ks) in
+  let h' := {| h_snd := hs; h_infb := hi; h_pend := hp; h_rcv := rcv' |} in
+  let k' := {| h_snd := ksnd'; h_infb := ki; h_pend := kp; h_rcv := kr |} in
+  Inv (owned k' idss_k) (slot_at m1) (mk_sys m1 h' oth0) sp_h idss_h /\
+  Inv (owned h' idss_h) (slot_at m1) (mk_sys m1 k' oth0) sp_k idss_k.
+Proof.
+  intros h k Ih Ik Hpw.
+  pose proof (Inv_release_reserve _ _ _ _ _ Ih) as Hrel. cbn [mk_sys mem rcv h h_rcv] in Hrel.
+  destruct (release_reserve m hr) as [m1 l1]. destruct Hrel as [I1 [Hpin [Hlea Hshape]]].
+  set (h1 := {| h_snd := hs; h_infb := hi; h_pend := hp; h_rcv := l1 |}).
+  assert (Ih1 : Inv (owned k idss_k) (slot_at m1) (mk_sys m1 h1 oth0) sp_h idss_h).
+  { apply (Inv_reghost _ _ _ _ _ I1). }
+  assert (Ik1 : Inv (owned h1 idss_h) (slot_at m1) (mk_sys m1 k oth0) sp_k idss_k).
+  { change (mk_sys m1 k oth0) with (mk_sys m1 (with_infb k ki) oth0).
+    eapply (Inv_transfer _ _ m k oth0 sp_k idss_k); [exact Ik|exact (iv_ok _ _ _ _ _ I1)| | | | |left; reflexivity].
+    - intros z Hz. apply (iv_ext _ _ _ _ _ I1). exact Hz.
+    - intros z. pose proof (iv_own _ _ _ _ _ I1 z) as Ho. rewrite !cnt_owned in *.
+      cbn [mk_sys with_mem_rcv mem snd rcv oth h1 h k h_snd h_rcv] in *. lia.
+    - exact (proj1 (iv_oth _ _ _ _ _ I1)).
+    - exact (proj2 (iv_oth _ _ _ _ _ I1)). }
+  destruct (swap_cond sw_reuse_needs_len0 sw_reuse_needs_one_slice l1) eqn:Esw; [|split; [exact Ih1|exact Ik1]].
+  (* the swap *)
+  pose proof (swap_cond_len0 l1 Esw) as Hl0. pose proof (swap_cond_one l1 Esw) as Hone.
+  destruct (Hshape Hl0 Hone) as [y [t [Esl [Eshm [Erd [Ewr [Et Ehn]]]]]]].
+  destruct Ih1 as [J1 J2 J3 J4 J5 J6 J7 J8 J9 [J10a J10b] J11 J12 J13 J14 J15 J16 J17].
+  destruct Ik1 as [K1 K2 K3 K4 K5 K6 K7 K8 K9 [K10a K10b] K11 K12 K13 K14 K15 K16 K17].
+  cbn [mk_sys mem snd infb pend rcv oth h1 k h_snd h_infb h_pend h_rcv] in *.
+  pose proof K2 as [W1 W2 W3 W4 W5 W6 W7].
+  destruct K17 as [Kp [Kr Kl]].
+  assert (Hc1 : content m1 l1 = []).
+  { apply length_zero_iff_nil. destruct J5 as [G _ _]. lia. }
+  assert (Hav : av sp_h = []) by (rewrite <- J6; exact Hc1).
+  assert (Hcks : content m1 ks = []) by (rewrite K3; exact Hpw).
+  assert (Hlks : len ks = 0%Z) by (rewrite W3, Hcks; reflexivity).
+  destruct (W7 Hlks) as [Hle1 Hallshm].
+  assert (Hoffs1 : offs (slices l1) = [off y]) by (rewrite Esl; apply (offs_cons_shm y [] Eshm)).
+  assert (Hpin0 : forall z, cnt (offs (pinned l1)) z = 0) by (intros z; rewrite Hpin; reflexivity).
+  assert (Hkpin0 : forall z, cnt (offs (pinned ks)) z = 0) by (intros z; rewrite Kp; reflexivity).
+  assert (Hyrec : recyclable m1 y).
+  { rewrite Esl in J9. cbn [app] in J9. inversion J9; assumption. }
+  assert (Hywok : wslice_ok m1 y).
+  { destruct (Hyrec Eshm) as [t' [Ht' Hcap]]. rewrite Et in Ht'. injection Ht' as <-.
+    destruct (so_static m1 J1 _ _ Et) as [Hdl _].
+    unfold start0 in J15. rewrite Esl in J15. inversion J15 as [|? ? Hst _]; subst.
+    unfold wslice_ok. rewrite (sdata_slot m1 y Eshm), Et. repeat split; try lia.
+    intros _. exists t. auto. }
+  split.
+  - (* the releasing stream's direction: its receive buffer is now the (empty) former send buffer *)
+    constructor; cbn [mk_sys mem snd infb pend rcv oth h_snd h_infb h_pend h_rcv].
+    + exact J1.
+    + exact J2.
+    + exact J3.
+    + exact J4.
+    + constructor.
+      * exact W3.
+      * destruct (slices ks) as [|a [|b r]]; cbn [tl]; [constructor|constructor|cbn [length] in Hle1; lia].
+      * eapply Forall_impl; [|exact W1]. intros a Ha. apply wslice_slice_ok. exact Ha.
+    + rewrite Hcks, Hav. reflexivity.
+    + exact Kr.
+    + intros z. specialize (J8 z). rewrite !cnt_owned in *. cbn [h_snd h_rcv] in *.
+      rewrite Hpin0 in J8. rewrite Hkpin0. lia.
+    + rewrite Kp, app_nil_r. eapply Forall_impl; [|exact W1]. intros a Ha. apply wslice_recyclable. exact Ha.
+    + split; assumption.
+    + intros _. exact Hallshm.
+    + intros Eb. split; [exact Hallshm|exact (proj2 (J12 Eb))].
+    + apply leases_ok_nil. exact Kl.
+    + intros z _. reflexivity.
+    + eapply Forall_impl; [|exact W1]. intros a [[_ Ha] _]. exact Ha.
+    + unfold rwp. destruct (wpos ks) as [|i|]; [left; exact W4|right; f_equal; lia|contradiction].
+    + exact J17.
+  - (* the other direction: its send buffer is now the adopted slice *)
+    assert (Hwp : wpos l1 = WAt 0).
+    { destruct J16 as [Hn|Hw]; [rewrite Esl in Hn; discriminate|]. rewrite Esl in Hw. exact Hw. }
+    constructor; cbn [mk_sys mem snd infb pend rcv oth h_snd h_infb h_pend h_rcv].
+    + exact K1.
+    + constructor.
+      * rewrite Esl. constructor; [exact Hywok|constructor].
+      * rewrite Hoffs1. constructor; [intros []|constructor].
+      * rewrite Hc1. exact Hl0.
+      * rewrite Hwp, Esl. reflexivity.
+      * intros _ Hpos. lia.
+      * intros _. rewrite Esl. constructor; [exact Eshm|constructor].
+      * intros _. rewrite Esl. split; [cbn; lia|constructor; [exact Eshm|constructor]].
+    + rewrite Hc1, Hpw. reflexivity.
+    + exact K4.
+    + exact K5.
+    + exact K6.
+    + exact K7.
+    + intros z. specialize (K8 z). rewrite !cnt_owned in *. cbn [h_snd h_rcv h1] in *.
+      rewrite Hpin0 in K8. rewrite Hkpin0. lia.
+    + exact K9.
+    + split; assumption.
+    + exact K11.
+    + exact K12.
+    + exact K13.
+    + intros z _. reflexivity.
+    + exact K15.
+    + exact K16.
+    + repeat split; assumption.
+Qed.
